@@ -183,7 +183,11 @@ class MinimumCurveDistanceFinder:
 
 def curveDistance(bez1, bez2):
     """Find the distance between two curves."""
-    c = MinimumCurveDistanceFinder(bez1, bez2)
+    # The squared distance is |P|^2 + |Q|^2 - 2 P.Q over the control points:
+    # far from the origin that cancels down to nothing, so work relative to
+    # the first curve's start
+    origin = bez1[0] * -1.0
+    c = MinimumCurveDistanceFinder(bez1.translated(origin), bez2.translated(origin))
     dist, t1, t2 = c.minDist()
     # The squared distance is assembled from Bernstein products and can come
     # out a few ulps below zero for touching curves.
